@@ -308,8 +308,16 @@ class DistSystem:
             return (np.array(obj.mean), np.array(obj.var))
         r = obj.compute()
         if f == 'tplbuild':
-            return (np.array(r), np.array(obj.pooled_covariance), np.array(obj.pooled_covariance_inv))
-        return (np.array(r),)
+            out = (np.array(r), np.array(obj.pooled_covariance), np.array(obj.pooled_covariance_inv))
+        else:
+            out = (np.array(r),)
+        # the returned array belongs to the caller: what the caller does to it afterwards (normalising in place, replacing NaN, ...) is not an input of the next compute()
+        if isinstance(r, np.ndarray) and r.flags.writeable and r.size:
+            try:
+                r[...] = 77
+            except Exception:
+                pass
+        return out
 
     def _reject_call(self, obj, kind):
         lo = self._rows_consumed(obj)
